@@ -58,8 +58,11 @@ CreateSteps ==
   {[op |-> "create", via |-> v, by |-> "req", acc |-> p[1], login |-> "newacct", want |-> p[2]] : p \in Pairs, v \in {349, 350}}
 
 KickSteps ==
-  {[op |-> "kick", acc |-> a, tacc |-> t, ban |-> b] :
+  {[op |-> "kick", acc |-> a, tacc |-> t, ban |-> b, third |-> "none", pacc |-> {}] :
      a \in {Priv, {22}, {22, 23}, Priv \ {22}}, t \in {{}, {23}, Priv, Priv \ {23}, Defined \ {23}}, b \in {0, 1, 2}}
+  \cup  \* a protected bystander, logged in from the target's address or from another one
+  {[op |-> "kick", acc |-> a, tacc |-> t, ban |-> b, third |-> th, pacc |-> pa] :
+     a \in {Priv, {22}}, t \in {{}, Priv \ {23}, {23}}, b \in {0, 1, 2}, th \in {"same", "other"}, pa \in {{23}, Priv}}
 
 (* ---- C16 cases ------------------------------------------------------------ *)
 RtSets ==
@@ -70,8 +73,13 @@ RtSets ==
   \cup {Rand(n) \cap Defined : n \in 1..(IF Thorough /\ Mode # "all" THEN 1500 ELSE 20)}
 RtSteps == {[op |-> "rt", S |-> S] : S \in RtSets}
 
+(* privileges of a live session's account changed by an administrator: new set S, old set {} or the complement *)
+UpdSets == {{i} : i \in Priv} \cup {{}, Priv, Defined, Priv \ {40}, Defined \ {2}}
+           \cup {Rand(n) : n \in 1..(IF Thorough /\ Mode # "all" THEN 300 ELSE 12)}
+UpdSteps == UNION {{[op |-> "upd", via |-> v, S |-> S, old |-> o] : v \in {349, 353}, o \in {{}, Priv \ S}} : S \in UpdSets}
+
 FirstSteps == (IF On("c05") THEN HandleSteps ELSE {}) \cup (IF On("c06") THEN CreateSteps \cup KickSteps ELSE {})
-              \cup (IF On("c16") THEN RtSteps ELSE {})
+              \cup (IF On("c16") THEN RtSteps \cup UpdSteps ELSE {})
 
 (* second step (model check only): the account just created creates another one *)
 ChainSteps ==
@@ -90,7 +98,7 @@ Spec == MCInit /\ [][Next]_mcvars
 (* ---- invariants of the instance -------------------------------------------- *)
 TablesOK == ReqMatchesGov /\ KeysUnique /\ Cardinality(Types) = 43
             /\ Cardinality(AllNames) = 40 /\ \A i \in Defined : Num(Name[i]) = i
-GuardOK == \A i \in DOMAIN hist : hist[i].op \in {"handle", "create", "kick", "rt"}
+GuardOK == \A i \in DOMAIN hist : hist[i].op \in {"handle", "create", "kick", "rt", "upd"}
 (* chains: what the second account holds, the first creator held *)
 NoChainAmplification ==
   ("newacct2" \in DOMAIN accts) => accts["newacct2"] \subseteq cap["newacct"]
@@ -98,6 +106,8 @@ NoChainAmplification ==
 (* ---- script emission --------------------------------------------------------- *)
 Script(s) == IF s.op = "rt"
                THEN [op |-> "rt", S |-> s.S, bytes |-> ToBytes(s.S), names |-> Save(s.S), allnames |-> AllNames]
+             ELSE IF s.op = "upd"
+               THEN [op |-> "upd", via |-> s.via, S |-> s.S, old |-> s.old, bytes |-> ToBytes(s.S)]
                ELSE s
 Emit == (Len(hist') = 1) => PrintT("B " \o ToJson(Script(hist'[1])))
 =============================================================================
